@@ -5,6 +5,13 @@ keyword count nothing. Corollaries of `Sshd.process_shape`. -/
 namespace AM.C19
 open AM AM.Sshd AM.Spec
 
+/-- the model counts first and writes afterwards (`incAt … ++ [write …]`), which is why an event that is
+written is counted whatever happens to the hand-off that follows: in the working tree every `IncLogins`
+call inside an entry function stands before the event write of its branch and outside any `select`
+(regenerated placement facts) -/
+theorem gen_incs_precede_the_write :
+    (AM.Gen.incPlacement.all fun x => x.2.all (· == "before-write")) = true := by decide
+
 theorem counted_once (cfg : Cfg) (pid line : Str) (ok : Bool) (h : Handoff) (e : Ev) (b : Bool) :
     (e, b) ∈ writes (process cfg pid line ok h) →
       ∃ m oc, incs (process cfg pid line ok h) = [(m, oc)] ∧
